@@ -561,6 +561,7 @@ func runC02(c *Ctx) {
 		c.Require("C02.D3 params-lookup-latest-at-or-below", FuncKey(g), p.Pos(g.Pos()), "parameters for a height = highest stored key in [0, height] (reverse scan, limit 1)", ok, "")
 	}
 	checkNextParamsNearest(c, "C02.D3 next-params-lookup-nearest-above")
+	checkImpliesMaxPrevotesIndex(c, "C02.D4 implies-max-prevotes-reads-the-previous-block")
 	// codec tables of the stored schemas
 	for _, s := range p.schemas() {
 		if s.Owner != bftPkg+".BFTVotes" && s.Owner != bftPkg+".BFTParams" && s.Owner != bftPkg+".GeneratorKeys" && s.Owner != bftPkg+".BFTBlockHeader" && s.Owner != bftPkg+".ActiveValidator" && s.Owner != bftPkg+".BFTValidator" {
@@ -1122,4 +1123,53 @@ func pruneOnlyRange(r *ssa.Range) bool {
 		}
 	}
 	return true
+}
+
+// checkImpliesMaxPrevotesIndex — LIP-0058 impliesMaximalPrevotes: the header implies the maximal
+// number of prevotes iff the block at height maxHeightGenerated on *this* chain was generated by the
+// same validator (or lies outside the window). The window holds the newest header first and the
+// function insists that the newest one is the header asked about, so the block at
+// maxHeightGenerated sits exactly height − maxHeightGenerated places in: the index used to read
+// the window, and the quantity compared with the window length, are that difference — any other
+// constant reads a neighbour's block (one off: every honest round-robin block is denied).
+func checkImpliesMaxPrevotesIndex(c *Ctx, rule string) {
+	p := c.P
+	fn := c.Anchor("pkg/consensus/liskbft.(*API).ImpliesMaximalPrevotes")
+	if fn == nil {
+		return
+	}
+	ff := factsOf(fn)
+	n := 0
+	for _, g := range funcAndHelpers(fn) {
+		for _, b := range g.Blocks {
+			for _, in := range b.Instrs {
+				ia, ok := in.(*ssa.IndexAddr)
+				if !ok {
+					continue
+				}
+				bt := ff.Term(ia.X).String()
+				if !strings.Contains(bt, "blockBFTInfos") {
+					continue
+				}
+				l := linOf(ff.Term(ia.Index))
+				if len(l.Coef) == 0 {
+					continue // blockBFTInfos[0]: the newest header (latest())
+				}
+				n++
+				okIdx := l.OK && l.Const == 0 && len(l.Coef) == 2
+				pos, neg := "", ""
+				for a, k := range l.Coef {
+					if k == 1 {
+						pos = a
+					}
+					if k == -1 {
+						neg = a
+					}
+				}
+				okIdx = okIdx && (strings.HasSuffix(pos, ".height") || strings.HasSuffix(pos, ".Height(p2)")) && strings.Contains(neg, "MaxHeightGenerated(")
+				c.Require(rule, FuncKey(fn)+": window index", p.InstrPos(ia), "the window is read at index (height of the newest header) − (maxHeightGenerated of the header asked about), nothing added or subtracted", okIdx, "index = "+l.String())
+			}
+		}
+	}
+	c.MinInstances(rule, n, 1)
 }
